@@ -852,6 +852,10 @@ func trivialGetterField(g *ssa.Function) *types.Var {
 	if f == nil {
 		return nil
 	}
+	// recv.F.ch with F a one-channel wrapper: the getter returns "the channel F"
+	if of, ob := wrapperOwner(base); of != nil && chanWrapperInner(of.Type()) == f {
+		f, base = of, ob
+	}
 	if _, ok := base.(*ssa.Parameter); !ok {
 		return nil
 	}
